@@ -6,7 +6,7 @@ answered by {result, error, duplicate}, n + m up to 10^3 (quick) / 10^4 (thoroug
 concatenation of independently generated blocks (model-guided random interleaving, each ended by a
 drain); the end of every block is a checkpoint where everything is answered.  The extracted
 Model/Endpoint.v is compared after EVERY event (key lists of both tables included); the oracle
-requires at every checkpoint len(_request_futures) = len(_result_types) = 0, and - observed only,
+requires at every checkpoint that both in-flight tables (harness/priv.py) are empty, and - observed only,
 Python's heap is not modelled - that after gc.collect() no sentinel object created inside a
 finished handler is still alive."""
 import gc
@@ -17,6 +17,7 @@ import weakref
 
 import core
 import sched
+import priv
 import c01
 from c01 import B
 
@@ -78,7 +79,7 @@ def probe_methods(n):
             gc.collect()
             samples.append(sys.getallocatedblocks())
     return {"blocks": samples, "second_half_growth": samples[3] - samples[1],
-            "tables": len(proto._request_futures) + len(proto._result_types)}
+            "tables": len(priv.request_futures(proto)) + len(priv.result_types(proto))}
 
 
 def probe_servers(ks):
@@ -104,12 +105,15 @@ def probe_servers(ks):
     return {"ks": list(ks), "alive": alive}
 
 
+@priv.in_worker
 def _run_any(case):
     try:
         if case.get("probe") == "methods":
             return probe_methods(case["n"])
         if case.get("probe") == "servers":
             return probe_servers(case["ks"])
+    except priv.Unresolvable:       # a failure of the harness, not an observation of pygls
+        raise
     except BaseException as ex:     # noqa
         return ["raise", type(ex).__name__, str(ex)[:200]]
     return c01._run_one(case)
@@ -140,6 +144,12 @@ class C16(c01.C01):
             "unserialisable, cancelled} and m outgoing requests answered by {result, error, duplicate}; a checkpoint "
             "after every block; non-trivial = the history contains a raising handler, a cancelled request or an "
             "error reply")
+    private = sched.PRIVATE
+    trusted_base = ["Coq 8.16.1 kernel incl. vm_compute (Examples)",
+                    "extraction with ExtrOcamlBasic only + ocaml/c16_driver.ml + conv_io/n/z/nat",
+                    "harness/sched.py (ready-queue interposition on a private asyncio loop with _PyTask, duck-typed "
+                    "pool and writers, frame decoder) and harness/c16.py (generators, canonicalisation)",
+                    priv.trusted(sched.PRIVATE)]
     assumptions = ["request ids are JSON ints or strings; an incoming request never reuses the id of an outstanding "
                    "outgoing request (disjoint_directions); outgoing ids are unique (uuid4)",
                    "every outgoing request of a block is answered by a well-formed JSON-RPC 2.0 response"]
@@ -277,6 +287,7 @@ class C16(c01.C01):
             import multiprocessing as mp
             with mp.get_context("fork").Pool(4) as pool:
                 res = pool.map(_run_any, ordered, chunksize=1)
+        priv.collect(res)
         out = [None] * len(cases)
         for k, r in zip(order, res):
             out[k] = r
